@@ -95,6 +95,9 @@ def x86_vec_rt(t): return YMM if is_v256(t) else ZMM if is_v512(t) else XMM
 
 def expect(abi, va, ret, args, dev=frozenset()):
     """-> (args: list of lists of loc, rets: list of loc, stack size).  loc = (kind, regtype, regid, offset, indirect)"""
+    # va: False / 255 = not variadic; True = variadic (index unknown: from the first argument); an integer = index of the first variadic argument
+    va_idx = None if (va is False or va == 255 or va is None) else (0 if va is True else int(va))
+    va = va_idx is not None
     R = lambda rt, i, ind=0: (1, rt, i, 0, ind)
     S = lambda off, ind=0: (2, 0, 0, off, ind)
     NONE = (0, 0, 0, 0, 0)
@@ -137,7 +140,7 @@ def expect(abi, va, ret, args, dev=frozenset()):
         eff_va = va and not ("va-ignored" in dev)
         ni = nv = 0
         nsaa = 0
-        for t in args:
+        for argi, t in enumerate(args):
             comps = [(t, False)]
             if word == 4 and t in (40, 41):
                 comps = [(39, "lo"), (t - 2, "hi")]
@@ -150,7 +153,9 @@ def expect(abi, va, ret, args, dev=frozenset()):
                     cls = "int" if (is_int(c) or is_mask(c)) else ("mem" if is_f80(c) and "f80-xmm" not in dev else "sse")
                 elif a64:
                     cls = "int" if is_int(c) else "sse"
-                    if abi == "apple64" and eff_va: cls = "mem"
+                    # Apple: the VARIADIC arguments (index >= va index) go to the stack in 8-byte slots, named ones are passed normally
+                    arg_is_va = eff_va and argi >= va_idx
+                    if abi == "apple64" and arg_is_va: cls = "mem"
                 else:
                     if is_int(c):
                         cls = "int"
@@ -173,7 +178,7 @@ def expect(abi, va, ret, args, dev=frozenset()):
                 # ---- stack
                 sz = sizeof(c)
                 if abi == "apple64":
-                    if eff_va:
+                    if eff_va and argi >= va_idx:
                         slot, al = rup(sz, 8), (16 if sz >= 16 else 8)
                     else:
                         slot, al = sz, sz                       # natural size and alignment
